@@ -94,6 +94,7 @@ TARGETS = [
     ("pams/simulator.py", "Simulator", "_update_time_on_market"),
     ("pams/simulator.py", "Simulator", "_update_times_on_markets"),
     ("pams/session.py", "Session", "setup"),
+    ("pams/utils/json_extends.py", None, "json_extends"),
     ("pams/runners/sequential.py", "SequentialRunner", "_handle_orders"),
     ("pams/runners/sequential.py", "SequentialRunner", "_collect_orders_from_normal_agents"),
     ("pams/runners/sequential.py", "SequentialRunner", "_update_markets"),
@@ -218,6 +219,10 @@ def expr(e):
             and e.args[0].func.id == "set" and len(e.args[0].args) == 1 and not e.args[0].keywords:
         # `len(set(xs))`: the number of distinct items (sets as values are outside the fragment)
         return "(.call (.name \"__len_set\") [%s] [] [])" % expr(e.args[0].args[0])
+    if isinstance(e, ast.Call) and isinstance(e.func, ast.Name) and e.func.id == "dict" and len(e.args) == 1 \
+            and len(e.keywords) == 1 and e.keywords[0].arg is None:
+        # `dict(pairs, **d)`: the dict of the pairs, updated with the items of `d`
+        return "(.call (.name \"__dict_merge\") [%s, %s] [] [])" % (expr(e.args[0]), expr(e.keywords[0].value))
     if isinstance(e, ast.Call) and isinstance(e.func, ast.Name) and e.func.id == "filter" and len(e.args) == 2 \
             and not e.keywords and isinstance(e.args[0], ast.Lambda):
         # `filter(lambda x: C, xs)` (always consumed by a `for` loop in pams, with a predicate that only looks at
